@@ -6,6 +6,7 @@ start, new data frame inside a fragmented message, unknown opcode, over `max_mes
 completes a text message that is not UTF-8, or a message too large after decompression.
 -/
 import TornadoModel.C15.Lemmas
+import TornadoModel.C15.Refine
 import TornadoModel.C14.Props
 namespace TornadoModel.C15
 open TornadoModel.C14 Spec
@@ -64,13 +65,34 @@ theorem cut_off_bytes (cfg : Cfg) (pre : List Frame) (f : Frame) (post : List Fr
   obtain ⟨h1, h2⟩ := cut_off cfg pre f post hopen hv
   rw [b1, b2]; exact ⟨h1, h2⟩
 
-/-- stretch, not proved (tie only: the harness evaluates `Spec.spec` on every case and compares it with the
-implementation, and the implementation with the model): the machine refines the strict batch reader. -/
-def model_refines_strict_goal : Prop :=
+/-- THE MACHINE REFINES THE STRICT READER.  On every frame list (any frames at all, legal or not, in any order)
+the receive machine delivers exactly the messages the strict RFC 6455 / RFC 7692 batch reader `Spec.spec`
+delivers, and it ends aborted exactly when the reader reports a violation.  (The only proviso: the reader's
+verdict is not `corrupt` — a compressed payload that is no deflate stream, where `zlib.error` escapes the loop;
+see docs/C15.md.) -/
+theorem model_refines_strict :
   ∀ (cfg : Cfg) (fs : List Frame),
     (Spec.spec cfg fs).violation.all (fun v => v.2 != .corrupt) →
     messagesOf (runFrames cfg init fs).2 = (Spec.spec cfg fs).delivered
-    ∧ ((Spec.spec cfg fs).violation.isSome ↔ (runFrames cfg init fs).1.status = .aborted)
+    ∧ ((Spec.spec cfg fs).violation.isSome ↔ (runFrames cfg init fs).1.status = .aborted) := by
+  intro cfg fs hnc
+  obtain ⟨h1, h2, _⟩ := refine_gen cfg fs 0 init rfl (inv_init cfg) hnc
+  exact ⟨h1, h2⟩
+
+/-- SAME ABORT POINT.  When the strict reader names frame `n` as the first violation, the machine is still open
+after the `n` frames before it and aborted once frame `n` itself has been read: it cuts the peer off at the very
+frame the RFC reader objects to — not earlier, not later. -/
+theorem same_abort_point (cfg : Cfg) (fs : List Frame) (n : Nat) (k : Spec.Kind)
+    (h : (Spec.spec cfg fs).violation = some (n, k)) (hk : k ≠ .corrupt) :
+    (runFrames cfg init (fs.take n)).1.status = .open
+    ∧ (runFrames cfg init (fs.take (n + 1))).1.status = .aborted := by
+  have hk' : (k != Spec.Kind.corrupt) = true := by cases k <;> first | rfl | exact absurd rfl hk
+  have hnc : (Spec.spec cfg fs).violation.all (fun v => v.2 != .corrupt) = true := by rw [h]; exact hk'
+  obtain ⟨_, _, h3⟩ := refine_gen cfg fs 0 init rfl (inv_init cfg) hnc
+  have h3' : (Spec.spec cfg fs).violation.map (·.1) = abortAt cfg 0 init fs := h3
+  rw [h] at h3'
+  obtain ⟨_, a, b⟩ := abortAt_spec cfg fs 0 init n h3'.symm
+  exact ⟨a, b⟩
 
 /-! ## non-vacuity: each listed violation is an instance of `Violating`, after a non-trivial valid prefix -/
 
@@ -106,5 +128,19 @@ example : Violating exCfg init ⟨true, 4, 2, 0, none, [1, 2, 3]⟩ :=
 /-- and `cut_off` applies: prefix message kept, nothing else, aborted -/
 example : messagesOf (runFrames exCfg init (exPre ++ ⟨true, 0, 0, 0, none, [255]⟩ :: [⟨true, 0, 2, 0, none, [9]⟩])).2
     = [(false, [1, 2])] := by decide
+
+/-- prefix (message, ping, first fragment), a final fragment making the text invalid UTF-8, a suffix -/
+def exRun : List Frame := exPre ++ [⟨true, 0, 0, 0, none, [255]⟩, ⟨true, 0, 2, 0, none, [9]⟩]
+
+/-- `model_refines_strict` is not vacuous: its hypothesis holds on a run with a prefix, a violation and a suffix
+(reader: one message, violation `badUtf8` at frame 3), and on a run without violation -/
+example : (Spec.spec exCfg exRun).violation.all (fun v => v.2 != .corrupt) = true := by decide
+example : Spec.spec exCfg exRun = ⟨[(false, [1, 2])], some (3, .badUtf8)⟩ := by decide
+/-- ... and `same_abort_point` on it: open after frames 0–2, aborted by frame 3 -/
+example : (runFrames exCfg init (exRun.take 3)).1.status = .open
+    ∧ (runFrames exCfg init (exRun.take 4)).1.status = .aborted :=
+  same_abort_point exCfg exRun 3 .badUtf8 (by decide) (by decide)
+example : Spec.spec exCfg (exPre ++ [⟨true, 0, 0, 0, none, [105]⟩]) = ⟨[(false, [1, 2]), (true, [104, 105])], none⟩ := by
+  decide
 
 end TornadoModel.C15
